@@ -25,8 +25,14 @@ THEOREMS = [
     "PorepyVerif.C10.tm_retry_rewinds",
     "PorepyVerif.C10.bc_history_is_accepted_times",
     "PorepyVerif.C10.both_flags_break_consistency",
-    "PorepyVerif.C10.bc_defect_witness",
+    "PorepyVerif.C10.ends_at_final_time_or_raises_tm",
+    "PorepyVerif.C10.accepted_steps_bounded_tm",
+    "PorepyVerif.C10.newton_iterations_le",
+    "PorepyVerif.C10.checkConv_exclusive",
+    "PorepyVerif.C10.checkConvRes_both_flags",
+    "PorepyVerif.C10.noBoth_of_divOverrules",
 ]
+LEAN_DIRS = ["C09"]  # the time manager of the model is C09's (imported)
 LEAN_MODULES = ["PorepyVerif.C10.Props"]
 AUDIT = "PorepyVerif/C10/Audit.lean"
 DRIVER = "PorepyVerif/C10/Driver.lean"
@@ -38,7 +44,9 @@ RULE = ("one case = one complete run of pp.run_time_dependent_model on a compres
         "budgets are exhausted in some runs). Modes: inject-check (45%: dyadic increments injected after the real linear solve, the REAL "
         "check_convergence decides: NaN -> diverged, small -> converged), inject-forced (25%: injected increments incl. zero/negative, flags "
         "forced, a few (True,True) entries and short tapes), physical-forced (20%: real Newton increments, flags forced), physical-real (10%: "
-        "nothing forced, max_iterations small so that real Newton fails). 20% of the cases have a time-dependent boundary value g(t)=t. "
+        "nothing forced, max_iterations small so that real Newton fails; 30% of these with a finite nl_divergence_tol so that the real "
+        "check_convergence raises both flags). Stratum: 35% of the inject cases have a solve whose FIRST iteration diverges through a NaN "
+        "increment (no increment norm logged). 20% of the cases have a time-dependent boundary value g(t)=t. "
         "non-trivial = at least one failed and one accepted solve; distinct = distinct cases")
 TRUSTED = [
     "modelled, not verified: assembly, discretisation, linear solve (executed, their result is the tape's increment in the inject modes), "
@@ -46,19 +54,26 @@ TRUSTED = [
     "the per-dof arrays are abstracted to one value per stored index (injected increments are constant vectors; in the physical modes only the "
     "equality pattern between stored arrays is compared)",
     "boundary values are abstracted to the time at which the boundary function was evaluated (harness: g(t)=t or constant)",
-    "termination of the real TimeManager (hypothesis `Terminating` of ends_at_final_time_or_raises) is C09's theorem; here it is proved for the "
-    "tick clock `simpleClock` only, and the faithful re-model `tmClock` is tied to the real TimeManager by the correspondence check",
+    "the time manager of the model IS C09's model (PorepyVerif.C09.Model, imported); its theorems run_terminates, only_documented_errors and "
+    "accepted_steps_bounded are transported to the C10 loop by the simulation lemma sim_runAll (C09's own trusted base applies to them)",
+    "check_convergence with a finite nl_divergence_tol is modelled on (increment norm, residual norm) pairs (checkConvRes); the norms themselves are numpy's",
 ]
 EXPLANATION = ("FULL for the control flow: model = NewtonSolver.solve loop + hooks + time loop over an abstract clock and an abstract value type; "
                "theorems hold for EVERY tape (all failure patterns), every clock and every window length >= 1: ts[0] = converged iterate after an "
-               "accepted solve, iterate = ts[0] = last accepted after a rejected one, the time-step window is the accepted sequence, the loop ends "
-               "finished-at-final-time or raised for every terminating clock. The boundary-value channel is proved for the REPAIRED failure hook "
-               "(finding bc-ts0-after-failed-step: the code as it stands shifts the rejected step's boundary values into the time-step storage). "
-               "Correspondence compares the complete event trace of the real run (every hook, stored arrays, time, dt, time index) with the model's.")
+               "accepted solve, iterate = ts[0] = last accepted after a rejected one, the time-step window is the accepted sequence, boundary values "
+               "of previous time steps are those of the accepted times, one solve makes at most max_iterations+1 iterations, the loop ends "
+               "finished-at-final-time or raised for every terminating clock AND for the real time-manager model (C09's, by simulation; "
+               "ends_at_final_time_or_raises_tm, accepted_steps_bounded_tm). The model follows the property for flags (True, True) (divergence overrules: "
+               "the solve fails); NewtonSolver.solve as it stands returns True without calling a hook (finding both-flags-returns-true-without-hooks, "
+               "witness both_flags_break_consistency; checkConvRes_both_flags shows the real check_convergence formula can raise both flags when "
+               "nl_divergence_tol is finite, checkConv_exclusive that it cannot with the default tolerances). "
+               "Correspondence compares the complete event trace of the real run (every hook, stored arrays, storage depths, boundary data, time, dt, "
+               "time index) with the model's.")
 ASSUMPTIONS = [
-    "tape entries are not (converged and diverged) at once (TapeOk); with both flags NewtonSolver.solve returns True without calling any hook "
-    "(modelled and compared, excluded from the statement)",
     "iterate_indices and time_step_indices are 0..n-1 with n >= 1",
+    "NoBoth: divergence overrules convergence (the model's default, the repaired solver) or no tape entry raises both flags; "
+    "for ends_at_final_time_or_raises_tm: C09.Admissible parameters (what the TimeManager constructor accepts, adaptive, initial step fits the "
+    "first scheduled interval, sane tolerances) and dt_min > 0",
 ]
 
 _GRIDS = [[1, 1], [2, 1], [2, 1], [2, 2], [3, 1], [3, 2]]
@@ -156,10 +171,15 @@ def gen_case(rng, tier):
         case["n_it"] = 1
         case["n_solves"] = n_solves
         case["tol"] = rng.choice(["1e-10", "1e-6", "1e-3"])
+        if rng.random() < 0.3:  # finite nl_divergence_tol: the real check_convergence can raise both flags
+            case["tol"], case["div_tol"] = rng.choice([("1e3", "1e-30"), ("1e-3", "1e-9"), ("1e-2", "1e-6")])
         return case
     p_fail = rng.choice([0.0, 0.15, 0.25, 0.25, 0.35, 0.5, 0.8])
     case["tapes"] = [_gen_solve_tape(rng, mode, max_it, p_fail) for _ in range(n_solves)]
-    if mode == "inject-forced" and rng.random() < 0.12:  # (True, True): outside the statement, compared only
+    if mode.startswith("inject") and rng.random() < 0.35:  # stratum: NaN divergence at the FIRST iteration of a solve
+        i = rng.randrange(min(3, n_solves))
+        case["tapes"][i] = [{"inc": "nan", "c": False, "d": mode == "inject-forced"}]
+    if mode == "inject-forced" and rng.random() < 0.12:  # (True, True)
         t = case["tapes"][rng.randrange(min(6, n_solves))]
         k = rng.randrange(len(t))
         t[k]["c"] = t[k]["d"] = True
@@ -382,6 +402,8 @@ def _real_run(case):
             params = {"material_constants": {"fluid": fluid, "solid": solid}, "time_manager": tm, "times_to_export": [],
                       "max_iterations": case["max_it"], "nonlinear_solver": cl["Solver"], "c10": rec,
                       "nl_convergence_tol": float(case.get("tol", "1e-10"))}
+            if "div_tol" in case:
+                params["nl_divergence_tol"] = float(case["div_tol"])
             model = cl["TapeModel"](params)
             try:
                 pp.run_time_dependent_model(model, params)
@@ -479,7 +501,7 @@ def model_ops(case):
     tm = dict(case["tm"])
     tm["rtol"], tm["atol"] = frac(1e-10), frac(1e-16)
     return [{"op": "run", "tm": tm, "max_it": case["max_it"], "n_it": case["n_it"], "n_ts": case["n_ts"], "init": case["init"],
-             "bc_rewind": True, "check_tol": case["tol"] if case["mode"] == "inject-check" else None, "tapes": _tapes_for_model(case)}]
+             "div_overrules": True, "check_tol": case["tol"] if case["mode"] == "inject-check" else None, "tapes": _tapes_for_model(case)}]
 
 
 def model_decode(outs, case):
@@ -513,8 +535,7 @@ def compare(impl, model, case):
                 return f"{where}: iterates/time steps {a['its']}/{a['tss']} vs model {b['its']}/{b['tss']}"
         elif a["pat"] != _pattern(b["its"] + b["tss"]):
             return f"{where}: equality pattern {a['pat']} vs model {_pattern(b['its'] + b['tss'])} ({b['its']}/{b['tss']})"
-        # (the code as it stands may hold one more, deeper, time-step slot than the repaired model: see the finding)
-        if a["bcit"] != bc_map(b["bcit"]) or a["bcts"][:len(b["bcts"])] != [bc_map(q) for q in b["bcts"]]:
+        if a["bcit"] != bc_map(b["bcit"]) or a["bcts"] != [bc_map(q) for q in b["bcts"]]:
             return f"{where}: boundary values {a['bcit']}/{a['bcts']} vs model {b['bcit']}/{b['bcts']}"
         if not (close(a["t"], b["t"]) and close(a["dt"], b["dt"])) or a["ti"] != b["ti"]:
             return f"{where}: clock (t, dt, index) {(a['t'], a['dt'], a['ti'])} vs model {(b['t'], b['dt'], b['ti'])}"
@@ -560,16 +581,18 @@ def oracle(case):
         (bit, bts), = loop["bc"]
         want = ([g(t) for t in acc_t] + [g(t0)])[:n_ts]
         got = [None if x is None else float(x[0]) for x in bts]
-        # slots deeper than the accepted history are not part of the statement
-        if float(bit[0]) != g(loop["t"]) or got[:len(want)] != want:
+        if float(bit[0]) != g(loop["t"]) or got != want:
             known = prev_failed is not None and case["bc"] == "time" and float(bit[0]) == g(loop["t"]) and got[0] == g(prev_failed)
             return {"what": f"solve {s} at t={loop['t']}" + (f" (recomputation of the step rejected at t={prev_failed})" if prev_failed is not None else "")
                             + f": boundary values stored for the previous time steps are {got}, the accepted times give {want}",
                     "key": "bc-ts0-after-failed-step" if known else "bc-history-other"}
         flags = [(e["c"], e["d"]) for e in evs if e["e"] == "check"]
-        if any(c and d for c, d in flags):
-            return None  # outside the statement (ASSUMPTIONS): nothing is claimed from here on
+        both = any(c and d for c, d in flags)
         last = evs[-1]
+        if both and last["e"] == "ret" and last["c"] and not any(e["e"] == "conv" for e in evs):
+            return {"what": f"solve {s} at t={loop['t']}: check_convergence returned (True, True); NewtonSolver.solve returned True although neither "
+                            f"after_nonlinear_convergence nor after_nonlinear_failure ran: iterate {last['its'][0]} vs time step 0 {last['tss'][0]}, the time loop goes on",
+                    "key": "both-flags-returns-true-without-hooks"}
         if last["e"] == "ret" and last["c"]:  # converged step
             conv_it = rec_converged(evs)
             if conv_it is None:
